@@ -100,6 +100,9 @@ func (c Cfg) String() string {
 //	post      POST keep-alive with a 5-byte body
 //	pipe      two keep-alive GETs in one write; both responses are read
 //	pipecl    GET keep-alive + GET Connection: close in one write
+//	bigstall  GET keep-alive, 70000-byte response that the peer does not read (with Cfg.SndBuf the
+//	          server's write is in flight - blocked or queued - from then on); the peer only waits
+//	          until the handler has been entered
 //	partial   POST head with Content-Length: 5, body withheld
 //	finish    the withheld body (the response is read)
 //	ws        WebSocket handshake (101 is read)
@@ -468,6 +471,10 @@ func (w *world) start() error {
 	u.KeepaliveTime = 10 * time.Minute
 	u.BlockingModTrasferConnToPoller = cfg.Transfer
 	u.BlockingModAsyncWrite = cfg.Async
+	// the only short runtime timer of these engines: an async-write connection closes itself this
+	// long after Conn.Close() (default 100 ms). 1 ms keeps it well inside the observation window of
+	// the early-exit rules (window()).
+	u.BlockingModAsyncCloseDelay = time.Millisecond
 	u.OnMessage(func(c *websocket.Conn, mt websocket.MessageType, data []byte) {
 		_ = c.WriteMessage(mt, data)
 	})
@@ -903,6 +910,19 @@ func (w *world) doRequest(c *conn, kind string) {
 		w.exchange(c, []reqSpec{w.newReq(c, false, "", nil, 10), w.newReq(c, false, "", nil, 10)})
 	case "pipecl":
 		w.exchange(c, []reqSpec{w.newReq(c, false, "", nil, 10), w.newReq(c, false, "close", nil, 10)})
+	case "bigstall":
+		r := w.newReq(c, false, "", nil, bigLen)
+		if !w.write(c, []byte(r.head())) {
+			return
+		}
+		entered := func() bool { w.mu.Lock(); defer w.mu.Unlock(); return w.handled[r.tag] > 0 }
+		if !WaitFor(w.caps.Step, entered) {
+			w.capHit("handler entry of " + r.tag)
+			w.dead = true
+			return
+		}
+		c.state = "stalled"
+		w.res.count("writes_left_in_flight", 1)
 	case "partial":
 		r := w.newReq(c, false, "", []byte("world"), 10)
 		if w.write(c, []byte(r.head())) {
@@ -1163,29 +1183,32 @@ func (w *world) probeEnd(c *conn) bool {
 	}
 }
 
-// window is the observation window of the early-exit rules (see awaitClosedByEngine): long enough
-// for the only short timer of these engines, the 100 ms close delay of an async-write WebSocket
-// connection, where one can be armed.
+// window is the observation window of the early-exit rules (see awaitClosedByEngine): 5 samples
+// spread over it. No engine built here arms a runtime timer shorter than the 10 min keep-alive,
+// except the close delay of an async-write WebSocket connection (set to 1 ms in start()), for
+// which the window is wider.
 func (w *world) window() time.Duration {
 	if w.c.Cfg.Async {
-		return time.Second
+		return 100 * time.Millisecond
 	}
-	return 80 * time.Millisecond
+	return 40 * time.Millisecond
 }
 
 // Enabled reports whether action a can be applied to a connection in the given harness state
-// ("" : not opened yet, "closed", "http", "partial", "ws").
+// ("" : not opened yet, "closed", "http", "partial", "ws", "stalled").
 func Enabled(state, a string) bool {
 	switch a {
 	case "open":
 		return state == ""
-	case "ka", "v10", "cl", "big", "bigcl", "post", "pipe", "pipecl", "partial", "ws":
+	case "ka", "v10", "cl", "big", "bigcl", "post", "pipe", "pipecl", "partial", "ws", "bigstall":
 		return state == "http"
 	case "finish":
 		return state == "partial"
 	case "wsmsg", "wsclose":
 		return state == "ws"
-	case "pclose", "phalf":
+	case "pclose":
+		return state == "http" || state == "partial" || state == "ws" || state == "stalled"
+	case "phalf":
 		return state == "http" || state == "partial" || state == "ws"
 	}
 	return false
@@ -1200,6 +1223,8 @@ func After(state, a string) string {
 		return "closed"
 	case "partial":
 		return "partial"
+	case "bigstall":
+		return "stalled"
 	case "finish":
 		return "http"
 	case "ws":
@@ -1479,8 +1504,10 @@ func normLog(s string) string {
 // was parked (none running, runnable or in a system call) in 5 consecutive samples spread over
 // the observation window. Parked goroutines can only be woken by I/O (the peers are idle: the
 // harness is waiting here), by another goroutine (there is none) or by a runtime timer (the
-// engines built here arm none shorter than the 10 min keep-alive, except the close delay the
+// engines built here arm none shorter than the 10 min keep-alive, except the 1 ms close delay the
 // window covers). Load does not matter: a goroutine that waits for a CPU is runnable, not parked.
+// Finally the kernel is asked directly (probeEnd), because the harness's own reader may be parked
+// with the end of the stream already there.
 func (w *world) awaitClosedByEngine(c *conn, kind string) {
 	ended := w.readToEnd(c, w.caps.Quiet)
 	parked := 0
